@@ -925,6 +925,51 @@ func c18Params(c *Ctx, decls map[*types.Func]*ast.FuncDecl) {
 func c18PerService(c *Ctx) {
 	r := c.R
 	mainDecls := c.oaDecls(cmdOpenAPI)
+	// every file to generate is visited: the per-file loop of the plugin main is left only on failure
+	{
+		nLoops := 0
+		for mfn, decl := range mainDecls {
+			if decl.Body == nil {
+				continue
+			}
+			minfo := c.P.DeclPkg[mfn].TypesInfo
+			parents := parentMap(decl.Body)
+			ast.Inspect(decl.Body, func(n ast.Node) bool {
+				rs, ok := n.(*ast.RangeStmt)
+				if !ok || !strings.HasSuffix(types.ExprString(rs.X), ".Files") {
+					return true
+				}
+				nLoops++
+				bad := ""
+				var bpos token.Pos
+				ast.Inspect(rs.Body, func(m ast.Node) bool {
+					switch x := m.(type) {
+					case *ast.FuncLit:
+						return false
+					case *ast.ReturnStmt:
+						if !failureReturn(minfo, x, parents) {
+							bad, bpos = "return "+types.ExprString(x.Results[len(x.Results)-1]), x.Pos()
+						}
+					case *ast.BranchStmt:
+						if x.Tok == token.BREAK {
+							bad, bpos = "break", x.Pos()
+						}
+					}
+					return true
+				})
+				pos := c.P.Pos(rs.Pos())
+				if bad != "" {
+					pos = c.P.Pos(bpos)
+				}
+				r.Check(bad == "", "R18d", "the per-file loop of the plugin visits every file (left only with an error)", pos,
+					"the loop over the request's files is left by `"+bad+"` although nothing failed: the services of every later file to generate get no document and the response carries no error")
+				return true
+			})
+		}
+		if nLoops == 0 {
+			r.Unres("R18d", "per-file loop in the plugin", "", "no range over ….Files in "+cmdOpenAPI)
+		}
+	}
 	var loopFn *ast.FuncDecl
 	var loopInfo *types.Info
 	for fn, decl := range mainDecls {
